@@ -52,7 +52,10 @@ func ForLookup(addr string) (string, error) {
 		}
 	}
 
-	mbox = strings.ToLower(norm.NFC.String(mbox))
+	// Lower-casing can produce a sequence that is not in NFC anymore
+	// (e.g. "J\u030C" => "j\u030C", which composes to U+01F0), normalize
+	// again so the result is a fixed point of ForLookup.
+	mbox = norm.NFC.String(strings.ToLower(norm.NFC.String(mbox)))
 
 	if domain == "" {
 		return mbox, nil
